@@ -105,7 +105,7 @@ def log(x: Interval):
     if is_not_Interval(x):
         return numpy.log(x)
     else:
-        assert x.lo > 0, "interval has to be positive"
+        assert numpy.all(x.lo > 0), "interval has to be positive"
     return Interval(numpy.log(lo(x)), numpy.log(hi(x)))
 
 
